@@ -29,9 +29,15 @@ that shows it unreachable, or the reason the site cannot fire).  A site that
 APPEARS (or changes its text) in a function of the scope, and a new function of
 the scope that has sites, breaks the tie: exit 1.  Sites and functions that
 disappear are printed as notes only (a refactoring into helpers or a repair adds
-nothing that could panic where the model does not look), and so are site lines that
+nothing that could panic where the model does not look).  Lines that differ are then
+compared by their CONSTRUCTS (`constructs`: the indexed expression with its index, the
+receiver of an unwrap / expect, both operands of an arithmetic operator, the operand of
+a cast): a line that was re-wrapped or whose expression was put into another statement
+(`match x[18] {` -> `T::from(x[18])`, `let _ = f(&mut b[18..(len)])` -> `if let Err(e) =
+f(&mut b[18..len])`) holds the same constructs and is a note, and so are constructs that
 disappear from one function of a file and appear unchanged in another function of the
-same file (code moved into a helper or a renamed function).  `--write` rewrites the `sites`
+same file (code moved into a helper or a renamed function).  A construct with another
+receiver, index, operand or literal is a new site.  `--write` rewrites the `sites`
 lists from the source and keeps the hand-written `model` / `guard` texts; a new
 function with sites gets `model: "TODO"`, which the comparison refuses.
 
@@ -158,6 +164,11 @@ SITE = [
 ]
 
 
+# what precedes an operator character that is NOT arithmetic: generic parameters / lifetimes / references / ranges,
+# and a keyword (`match *self`, `return -1`, `in &x`: a dereference or a sign, not a product or a difference)
+NOT_ARITH = re.compile(r"([<:&]|\b(match|return|if|in|while|else|let|mut|ref|break|move))\s*$")
+
+
 def sites(body):
     out = []
     for line in body.splitlines():
@@ -168,12 +179,173 @@ def sites(body):
             k = len(rx.findall(t)) if kind != "arith" else len(list(rx.finditer(t)))
             if kind == "arith":
                 # generic parameters / lifetimes / references / ranges are not arithmetic
-                k = len([m for m in rx.finditer(t) if not re.search(r"[<:&]\s*$", t[:m.start() + 1])])
+                k = len([m for m in rx.finditer(t) if not NOT_ARITH.search(t[:m.start() + 1])])
             if k:
                 # which member of the panic family a line uses is not a difference
                 t2 = re.sub(r"\b(panic|todo|unreachable|unimplemented)!", "panic!", t) if kind == "macro" else t
                 out.append("%s x%d: %s" % (kind, k, t2[:110]))
     return out
+
+
+# ---- constructs: what a site line holds, independent of the line it is written on ----------------------------
+# The inventory keeps site LINES.  A refactoring that re-wraps a line, puts the same expression into another
+# statement (`match x[18] {` -> `T::from(x[18])`) or moves it to a helper changes the line but not what can
+# panic.  When the line comparison finds new lines, the constructs of the new lines are compared with the
+# constructs of the lines that went away: index `recv[idx]`, unwrap / expect with their receiver, arithmetic
+# with both operands, casts with their operand, panic-family macros.  A new line all of whose constructs were
+# already there (in that function, or in a function of the same file that lost them) is a note; a construct
+# with a different receiver, index, operand or literal is still a new site.
+
+def _back(t, i):
+    """start of the postfix expression that ends just before t[i] (identifiers, paths, calls, indexes, `?`)"""
+    j = i
+    while j > 0:
+        c = t[j - 1]
+        if c in ")]":
+            d, k = 0, j - 1
+            while k >= 0:
+                if t[k] in ")]":
+                    d += 1
+                elif t[k] in "([":
+                    d -= 1
+                    if d == 0:
+                        break
+                k -= 1
+            if k < 0:
+                return j
+            j = k
+        elif c == "." and j >= 2 and t[j - 2] == ".":
+            break                      # `a..b`: a range, not a path
+        elif c.isalnum() or c in "_.?:":
+            j -= 1
+        else:
+            break
+    return j
+
+
+def _fwd(t, i):
+    """end of the operand that starts at t[i] (prefix `&` / `*` / `(`, then a postfix expression)"""
+    n, j = len(t), i
+    while j < n and t[j] in "&*":
+        j += 1
+    while j < n:
+        c = t[j]
+        if c in "([":
+            d, k = 0, j
+            while k < n:
+                if t[k] in "([":
+                    d += 1
+                elif t[k] in ")]":
+                    d -= 1
+                    if d == 0:
+                        break
+                k += 1
+            if k >= n:
+                return n
+            j = k + 1
+        elif c == "." and j + 1 < n and t[j + 1] == ".":
+            break
+        elif c.isalnum() or c in "_.?:":
+            j += 1
+        else:
+            break
+    return j
+
+
+def constructs(site):
+    """the constructs of one inventory line `kind xK: text` (text is cut at 110 characters: a line whose
+    constructs cannot all be recovered yields itself, which matches nothing but the identical line)"""
+    m = re.match(r"(\w+) x(\d+): (.*)$", site)
+    if not m:
+        return [site]
+    kind, k, t = m.group(1), int(m.group(2)), m.group(3)
+    rx = dict(SITE)[kind]
+    out = []
+    for mm in rx.finditer(t):
+        if kind == "arith" and NOT_ARITH.search(t[:mm.start() + 1]):
+            continue
+        if kind == "index":
+            a = _back(t, mm.start())
+            d, e = 0, mm.start()
+            while e < len(t):
+                if t[e] == "[":
+                    d += 1
+                elif t[e] == "]":
+                    d -= 1
+                    if d == 0:
+                        break
+                e += 1
+            if e >= len(t):
+                return [site]
+            c = t[a:e + 1]
+        elif kind in ("unwrap", "expect"):
+            c = t[_back(t, mm.start()):mm.start()] + "." + kind
+        elif kind == "macro":
+            c = mm.group(1) + "!"
+        elif kind == "arith":
+            b = _fwd(t, mm.end())
+            if b >= len(t) and len(t) >= 110:
+                return [site]
+            c = t[_back(t, mm.start()):mm.start()] + mm.group(1) + t[mm.end():b]
+        else:  # cast
+            c = t[_back(t, mm.start() - 1 if mm.start() and t[mm.start() - 1] == " " else mm.start()):mm.end()]
+        # redundant parentheses around a lone name or number (`buf[18..(len)]`) are not a difference
+        c = re.sub(r"(?<![\w\)\]>!])\(\s*(\w+)\s*\)", r"\1", c)
+        c = "".join(c.split())
+        out.append(kind + ": " + c)
+    if len(out) != k:
+        return [site]
+    return out
+
+
+def _renamed(came_c, have_c):
+    """came_c with up to three identifiers renamed back, when that makes every construct one the function lost:
+    a private field or a local that was given another name (`self.octets[..]` -> `self.slice[..]`) in ALL the
+    constructs that use it.  Returns the renamed list, or None."""
+    import itertools
+    ids = lambda cs: set(w for c in cs for w in re.findall(r"[A-Za-z_]\w*", c.split(": ", 1)[-1]))
+    new_ids, old_ids = sorted(ids(came_c) - ids(have_c)), sorted(ids(have_c) - ids(came_c))
+    if not new_ids or len(new_ids) != len(old_ids) or len(new_ids) > 3:
+        return None
+    for perm in itertools.permutations(old_ids):
+        ren = dict(zip(new_ids, perm))
+        back = [c.split(": ", 1)[0] + ": " + re.sub(r"[A-Za-z_]\w*", lambda m: ren.get(m.group(0), m.group(0)), c.split(": ", 1)[-1])
+                for c in came_c]
+        if not _minus(back, have_c, _same)[0]:
+            return back
+    return None
+
+
+def _harmless(c):
+    """a construct that cannot panic whatever it is applied to: the full-range slice `x[..]`"""
+    return bool(re.fullmatch(r"index: .*\[\.\.\]", c))
+
+
+def _same(x, y):
+    """two constructs are the same site: equal, or an unwrap / expect whose method chain starts on an earlier
+    line on one side (`.try_into().expect`) and is written on one line on the other (`c.value().try_into().expect`)"""
+    if x == y:
+        return True
+    for kind in ("unwrap: ", "expect: "):
+        if x.startswith(kind) and y.startswith(kind):
+            a, b = x[len(kind):], y[len(kind):]
+            return (a.startswith(".") and len(a) > len(kind) and b.endswith(a)) or \
+                   (b.startswith(".") and len(b) > len(kind) and a.endswith(b))
+    return False
+
+
+def _minus(a, b, same=lambda x, y: x == y):
+    """multiset difference a - b, and what is left of b"""
+    b = list(b)
+    rest = []
+    for x in a:
+        for y in b:
+            if same(x, y):
+                b.remove(y)
+                break
+        else:
+            rest.append(x)
+    return rest, b
 
 
 def main():
@@ -216,26 +388,30 @@ def main():
     # disappear (a refactoring that moves code into a helper, a repair that removes an unwrap) are
     # reported as notes: nothing that could panic was added where the model does not look.
     bad, notes = [], []
-    cand = []      # (key, line, new site lines, message): breaks the tie unless every line was MOVED here
-    pool = {}      # file -> site lines that disappeared from functions of that file (a multiset)
+    cand = []      # (key, line, new site lines, their constructs not found in the function, message)
+    pool = {}      # file -> CONSTRUCTS that disappeared from functions of that file (a multiset)
     for k, (s, line) in found.items():
         if k not in old:
             if s:
-                cand.append((k, line, list(s), "function in scope but not in the inventory: %s (line %d) with panic-capable sites %s" % (k, line, s)))
+                cand.append((k, line, list(s), [c for x in s for c in constructs(x) if not _harmless(c)],
+                             "function in scope but not in the inventory: %s (line %d) with panic-capable sites %s" % (k, line, s)))
             else:
                 notes.append("new function without panic-capable sites: %s" % k)
             continue
-        have = list(old[k]["sites"])
-        came = []
-        for x in s:
-            if x in have:
-                have.remove(x)
-            else:
-                came.append(x)
-        if have:
-            pool.setdefault(k.split(" | ")[0], []).extend(have)
-        if came:
-            cand.append((k, line, came, "new panic-capable site(s) in %s (line %d; model operation: %s)\n      new : %s\n      gone: %s" % (k, line, old[k]["model"], came, have)))
+        came, have = _minus(s, old[k]["sites"])
+        # the same constructs on re-written lines (re-wrapped, put into another statement) are no new sites
+        came_c, have_c = _minus([c for x in came for c in constructs(x)], [c for x in have for c in constructs(x)], _same)
+        came_c = [c for c in came_c if not _harmless(c)]
+        if came_c and _renamed(came_c, have_c) is not None:
+            notes.append("site line(s) of %s re-written with a renamed field / local, same panic-capable constructs: %s" % (k, came))
+            came_c, have_c, came = [], _minus(_renamed(came_c, have_c), have_c, _same)[1], []
+        if have_c:
+            pool.setdefault(k.split(" | ")[0], []).extend(have_c)
+        if came_c:
+            cand.append((k, line, came, came_c, "new panic-capable site(s) in %s (line %d; model operation: %s)\n      new : %s\n      gone: %s\n      constructs not in the inventory of this function: %s" % (
+                k, line, old[k]["model"], came, have, came_c)))
+        elif came:
+            notes.append("site line(s) of %s re-written, same panic-capable constructs: %s (were: %s)" % (k, came, have))
         elif have:
             notes.append("sites gone from %s: %s" % (k, have))
         elif old[k]["model"] == "TODO" or (s and old[k]["guard"] == "TODO"):
@@ -243,24 +419,17 @@ def main():
     for k in old:
         if k not in found:
             notes.append("function of the inventory is gone (renamed / moved?): %s" % k)
-            pool.setdefault(k.split(" | ")[0], []).extend(old[k]["sites"])
-    # A refactoring that MOVES code (into a helper, into a renamed function) makes the same site lines
+            pool.setdefault(k.split(" | ")[0], []).extend(c for x in old[k]["sites"] for c in constructs(x))
+    # A refactoring that MOVES code (into a helper, into a renamed function) makes the same constructs
     # disappear in one function of a file and appear in another: nothing that could panic was added, the
-    # model operation recorded for the old place still performs it.  Such lines are notes; a line that
+    # model operation recorded for the old place still performs it.  Such sites are notes; a construct that
     # no function of the file lost is a new site.
-    for k, line, came, msg in cand:
-        avail = pool.get(k.split(" | ")[0], [])
-        take = list(avail)
-        ok = True
-        for x in came:
-            if x in take:
-                take.remove(x)
-            else:
-                ok = False
-                break
-        if ok:
-            pool[k.split(" | ")[0]] = take
-            notes.append("site line(s) moved within %s into %s (line %d): %s" % (k.split(" | ")[0], k, line, came))
+    for k, line, came, came_c, msg in cand:
+        f = k.split(" | ")[0]
+        rest, left = _minus(came_c, pool.get(f, []), _same)
+        if not rest:
+            pool[f] = left
+            notes.append("site(s) moved within %s into %s (line %d): %s" % (f, k, line, came))
         else:
             bad.append(msg)
     for x in notes:
